@@ -56,6 +56,126 @@ func c05RangedPoolLine(tr *Trace, rx, ry sdkmath.Int, minP, maxP, lowest, highes
 	return true
 }
 
+// ---- the keeper's first batch of a pair WITH pools: FindMatchPrice over MultipleOrderViews{book view, pools…}, one buy and one
+// sell order per pool at the found price, MatchAtSinglePrice (keeper/swap.go:673-694). Lines:
+//   amm.pv <poolId> basic <rx> <ry> | amm.pv <poolId> ranged <rx> <ry> <min> <max>        (after amm.begin / amm.order)
+//   amm.op firstp <prec> <price|none> <ok|nomatch|panic> <qcd|-> <poolOrders> <results>
+//          poolOrders: `id:poolId:dir:price:amount:offer` of the orders the pools placed (ids continue the sequence's),
+//          results: every order of the sequence including those, as for the other ops
+func c05OpFirstPools(tr *Trace, os []*c05Order, pools []*liqtypes.PoolOrderer, prec int) {
+	snap := c05Snapshot(os)
+	var price, outcome, qcd = "none", "", "-"
+	var created []string
+	all := os
+	panicked, _ := try(func() {
+		ob := amm.NewOrderBook(c05Objs(os)...)
+		ov := amm.MultipleOrderViews{ob.MakeView()}
+		for _, pool := range pools {
+			ov = append(ov, pool)
+		}
+		mp, found := amm.FindMatchPrice(ov, prec)
+		if !found {
+			outcome = "nomatch"
+			return
+		}
+		price = c05Raw(mp)
+		for _, pool := range pools {
+			add := func(dir amm.OrderDirection, amt sdkmath.Int) {
+				if !amt.IsPositive() {
+					return
+				}
+				o := pool.Order(dir, mp, amt)
+				ob.AddOrder(o)
+				x := &c05Order{id: len(all), kind: 1, oid: pool.ID, o: o}
+				all = append(all, x)
+				created = append(created, strconv.Itoa(x.id)+":"+u(pool.ID)+":"+c05Dir(dir)+":"+c05Raw(mp)+":"+amt.String()+":"+o.GetOfferCoinAmount().String())
+			}
+			add(amm.Buy, pool.BuyAmountOver(mp, true))
+			add(amm.Sell, pool.SellAmountUnder(mp, true))
+		}
+		q, matched := ob.MatchAtSinglePrice(mp)
+		if matched {
+			outcome, qcd = "ok", q.String()
+		} else {
+			outcome = "nomatch"
+		}
+	})
+	if panicked {
+		outcome, qcd = "panic", "-"
+	}
+	tr.Count("firstp:" + outcome)
+	if len(created) > 0 {
+		tr.Count("firstp:with-pool-orders")
+	}
+	tr.Line("amm.op", "firstp", strconv.Itoa(prec), price, outcome, qcd, strings.Join(created, ","), c05Results(all))
+	c05Stats(tr, os, snap, true)
+}
+
+// user orders around a centre plus one or two non-depleted pools (basic / ranged) whose price is near it
+func (g *c05Gen) firstPoolsCase(tr *Trace) {
+	r := g.rng
+	g.prec = 2 + r.Intn(3)
+	g.loIdx = amm.TickToIndex(c05Dec("0.00000000000001"), g.prec)
+	g.hiIdx = amm.TickToIndex(c05Dec("100000000000000000000"), g.prec)
+	lo := amm.TickToIndex(c05Dec("0.000001"), g.prec)
+	hi := amm.TickToIndex(c05Dec("1000000"), g.prec)
+	g.center = lo + r.Intn(hi-lo+1)
+	g.lastAmts = nil
+	cp := g.tick(0)
+	var os []*c05Order
+	nu := r.Intn(7)
+	for i := 0; i < nu; i++ {
+		dir := amm.Buy
+		if r.Chance(50) {
+			dir = amm.Sell
+		}
+		delta := r.Intn(81) - 40
+		if (dir == amm.Buy) == r.Chance(65) && delta < 0 {
+			delta = -delta
+		}
+		price := g.tick(delta)
+		amt := g.amount(tr, price)
+		if amt.GT(c05Pow10(14)) {
+			amt = c05Pow10(3 + r.Intn(10))
+		}
+		os = append(os, c05New(len(os), 0, uint64(1+r.Intn(40)), uint64(r.Intn(3)), dir, price, amt, amm.OfferCoinAmount(dir, price, amt)))
+	}
+	c05Begin(tr, os)
+	var pools []*liqtypes.PoolOrderer
+	np := 1 + r.Intn(2)
+	for pi := 0; pi < np; pi++ {
+		dev := int64(r.Intn(101) - 50)
+		pp := cp.Mul(sdkmath.LegacyNewDec(1000 + dev)).QuoInt64(1000)
+		ry := c05Pow10(3 + r.Intn(9)).MulRaw(int64(1 + r.Intn(9)))
+		rx := pp.MulInt(ry).TruncateInt()
+		if !rx.IsPositive() {
+			continue
+		}
+		pid := uint64(pi + 1)
+		if r.Chance(50) {
+			bp, err := amm.CreateBasicPool(rx, ry)
+			if err != nil {
+				continue
+			}
+			pools = append(pools, liqtypes.NewPoolOrderer(bp, pid, nil, "base", "quote"))
+			tr.Line("amm.pv", u(pid), "basic", rx.String(), ry.String())
+			tr.Count("firstp:pool-basic")
+		} else {
+			minP := amm.PriceToDownTick(pp.Mul(c05Dec("0.8")), g.prec)
+			maxP := amm.PriceToUpTick(pp.Mul(c05Dec("1.25")), g.prec)
+			rp, err := amm.CreateRangedPool(rx, ry, minP, maxP, pp)
+			if err != nil {
+				continue
+			}
+			prx, pry := rp.Balances()
+			pools = append(pools, liqtypes.NewPoolOrderer(rp, pid, nil, "base", "quote"))
+			tr.Line("amm.pv", u(pid), "ranged", prx.String(), pry.String(), c05Raw(minP), c05Raw(maxP))
+			tr.Count("firstp:pool-ranged")
+		}
+	}
+	c05OpFirstPools(tr, os, pools, g.prec)
+}
+
 func c05RangedLines(tr *Trace, r *Rng, n int) {
 	for k := 0; k < n; k++ {
 		prec := 2 + r.Intn(3)
